@@ -2,6 +2,7 @@
 
 import datetime as dt
 import itertools as it
+import os
 from pathlib import Path
 import re
 import sys
@@ -13,6 +14,18 @@ from typist import PathLike
 from zorg.domain.types import Color, VarMapType
 
 _T = TypeVar("_T")
+
+
+def atomic_write_text(path: Path, text: str) -> None:
+    """Writes {text} to {path} without ever exposing a partially written file.
+
+    The text is first written to a temporary file (in the same directory),
+    which then replaces {path} in a single step. This way a process that is
+    killed mid-write leaves the old contents of {path} untouched.
+    """
+    tmp_path = path.with_name(f".{path.name}.tmp")
+    tmp_path.write_text(text)
+    os.replace(tmp_path, path)
 
 
 def get_only_item(items: Iterable[_T]) -> _T:
